@@ -25,7 +25,7 @@ type SQLOp struct {
 	Desc    bool   `json:"desc,omitempty"`
 	Limit   bool   `json:"limit,omitempty"` // LIMIT without a determined order: compare counts + membership
 	Rows    int    `json:"rows,omitempty"`  // ins: number of rows in VALUES
-	// KeepTime: run under the previous statement's write_time (witness of K2 only)
+	// KeepTime: run under the previous statement's write_time (non-decreasing, not increasing)
 	KeepTime bool `json:"keep_time,omitempty"`
 }
 
